@@ -141,7 +141,7 @@ type recorded struct {
 }
 
 func validate(c *core.Ctx, trace []byte, workers int) (ok bool, matched int, err error) {
-	r, err := c.TLC(core.TLCOpts{Module: "TracePacketConn", Cfg: "TracePacketConn.cfg", Files: map[string][]byte{"trace.ndjson": trace}, Workers: 1})
+	r, err := c.TLC(core.TLCOpts{Module: "TracePacketConn", Cfg: "TracePacketConn.cfg", Files: map[string][]byte{"trace.ndjson": trace}, Workers: 1, HeapMB: 1024})
 	if err != nil {
 		return false, 0, err
 	}
@@ -164,7 +164,7 @@ func validate(c *core.Ctx, trace []byte, workers int) (ok bool, matched int, err
 }
 
 func randomTraces(c *core.Ctx, pl *pool, rnd *rand.Rand) error {
-	nScen := c.Pick(24, 160)
+	nScen := c.Pick(20, 160)
 	window := c.Pick(20, 72)
 	var recs []*recorded
 	outcomes := map[string]int{}
@@ -228,6 +228,7 @@ func randomTraces(c *core.Ctx, pl *pool, rnd *rand.Rand) error {
 			}
 		}
 	}
+	c.Logf("traces: %d runs of %d random scenarios recorded", nruns, nScen)
 	var buf bytes.Buffer
 	nev := 0
 	for _, rc := range recs {
@@ -238,7 +239,54 @@ func randomTraces(c *core.Ctx, pl *pool, rnd *rand.Rand) error {
 			nev++
 		}
 	}
+	// binding self-test (runs concurrently with the real validation): one corrupted field of a
+	// recorded trace must be refused, and at the corrupted event
+	lines := bytes.Split(bytes.TrimSpace(buf.Bytes()), []byte("\n"))
+	if len(lines) > 300 {
+		lines = lines[:300]
+	}
+	kinds := []string{"hash", "err", "served", "wire"}
+	if !c.Thorough() {
+		kinds = []string{"hash", "err", "served"}
+	}
+	type stRes struct {
+		kind string
+		err  error
+		done bool
+	}
+	stCh := make(chan stRes, len(kinds))
+	for _, kind := range kinds {
+		go func(kind string) {
+			bad, at := corruptTrace(lines, kind)
+			if bad == nil {
+				stCh <- stRes{kind: kind}
+				return
+			}
+			ok, m, err := validate(c, bad, 1)
+			switch {
+			case err != nil:
+				stCh <- stRes{kind: kind, err: err}
+			case ok:
+				stCh <- stRes{kind: kind, err: fmt.Errorf("binding self-test failed: trace with corrupted %s was accepted", kind)}
+			case m != at:
+				stCh <- stRes{kind: kind, err: fmt.Errorf("binding self-test failed: corrupted %s at event %d, refusal reported at %d", kind, at, m)}
+			default:
+				stCh <- stRes{kind: kind, done: true}
+			}
+		}(kind)
+	}
 	ok, matched, err := validate(c, buf.Bytes(), 1)
+	mut := 0
+	var stErr error
+	for range kinds {
+		r := <-stCh
+		if r.err != nil && stErr == nil {
+			stErr = r.err
+		}
+		if r.done {
+			mut++
+		}
+	}
 	if err != nil {
 		return err
 	}
@@ -293,25 +341,8 @@ func randomTraces(c *core.Ctx, pl *pool, rnd *rand.Rand) error {
 	}
 	c.Logf("TracePacketConn: %d runs, %d events accepted", nruns, nev)
 
-	// binding self-test: one corrupted field of a recorded trace must be refused
-	lines := bytes.Split(bytes.TrimSpace(buf.Bytes()), []byte("\n"))
-	if len(lines) > 400 {
-		lines = lines[:400]
-	}
-	mut := 0
-	for _, kind := range []string{"hash", "err", "served", "wire"} {
-		bad := corruptTrace(lines, kind)
-		if bad == nil {
-			continue
-		}
-		ok, _, err := validate(c, bad, 1)
-		if err != nil {
-			return err
-		}
-		if ok {
-			return fmt.Errorf("binding self-test failed: trace with corrupted %s was accepted", kind)
-		}
-		mut++
+	if stErr != nil {
+		return stErr
 	}
 	if mut < 3 {
 		return fmt.Errorf("binding self-test could corrupt only %d kinds of fields", mut)
@@ -341,7 +372,7 @@ func traceEventKey(ev []byte) string {
 }
 
 // corruptTrace changes one logged observation of the first suitable event.
-func corruptTrace(lines [][]byte, kind string) []byte {
+func corruptTrace(lines [][]byte, kind string) ([]byte, int) {
 	out := make([][]byte, len(lines))
 	copy(out, lines)
 	for i, l := range lines {
@@ -367,8 +398,8 @@ func corruptTrace(lines [][]byte, kind string) []byte {
 		if done {
 			b, _ := json.Marshal(m)
 			out[i] = b
-			return append(bytes.Join(out, []byte("\n")), '\n')
+			return append(bytes.Join(out, []byte("\n")), '\n'), i
 		}
 	}
-	return nil
+	return nil, 0
 }
